@@ -31,9 +31,9 @@ DevSkipGuardUsesApply     == Flag("DevSkipGuardUsesApply", FALSE)
 \* F-C19-b (open): ConvertRequire::serialize_to_properties returns an empty map.
 DevConvertRequireNoProps  == Flag("DevConvertRequireNoProps", TRUE)
 \* F-C19-c (open): RemoveComments::serialize_to_properties returns an empty map (`except` is lost).
-DevRemoveCommentsNoExcept == Flag("DevRemoveCommentsNoExcept", TRUE)
+DevRemoveCommentsNoExcept == Flag("DevRemoveCommentsNoExcept", FALSE)
 \* F-C19-d (open): RemoveAttribute::serialize_to_properties returns an empty map (`match` is lost).
-DevRemoveAttributeNoMatch == Flag("DevRemoveAttributeNoMatch", TRUE)
+DevRemoveAttributeNoMatch == Flag("DevRemoveAttributeNoMatch", FALSE)
 \* F-C19-e (open): `generator: { name: 'retain_lines', <anything> }` -- serde ignores every other key of an
 \* internally tagged UNIT variant, deny_unknown_fields notwithstanding.
 DevUnitGeneratorIgnoresFields == Flag("DevUnitGeneratorIgnoresFields", TRUE)
